@@ -67,6 +67,10 @@ def make_options(rng=None, bits=None, **fixed):
         bits = [bool(x) for x in rng.integers(0, 2, len(BOOL_OPTS))]
     kw = dict(zip(BOOL_OPTS, [bool(b) for b in bits]))
     kw.update(fixed)
+    if rng is not None and kw.get("RADIAL_DYNAMICS") and "RADIAL_SOLVER_REL_DIFF" not in kw and rng.random() < 0.6:
+        # the two controls of the radial solver are model options like the switches
+        kw["RADIAL_SOLVER_REL_DIFF"] = float(rng.choice([1e-2, 1e-4, 1e-7]))
+        kw["RADIAL_SOLVER_MAX_STEPS"] = int(rng.choice([2, 7, 60, 500]))
     return ModelOptions(**kw), kw
 
 
